@@ -16,7 +16,7 @@ impl DimensionsExtractor for SvgDimensionsExtractor {
 
     fn try_read_dimensions(&self, path: &Path) -> io::Result<Option<Dimensions>> {
         let mut content = String::new();
-        for event in svg::open(path, &mut content).unwrap() {
+        for event in svg::open(path, &mut content)? {
             if let Event::Tag(SVG, _, attributes) = event {
                 if let (Some(width_value), Some(height_value)) =
                     (attributes.get("height"), attributes.get("width"))
